@@ -420,4 +420,8 @@ where
              Clause('W8_clean_end_only_for_clients', f'!old(self).state.is_end_stream ==> (r matches Poll::Ready(None) ==> old(self).state.role is Client && enc_step({OI}, {FI}, Poll::Ready(None)))', ['C03']),
              Clause('W9_role_never_changes', 'final(self).state.role == old(self).state.role', ['C03']),
          ])
+    # is_end_stream: the body claims to be over only after the trailers went out (a premature `true` makes the transport stop polling:
+    # the grpc-status would be lost)
+    u.fn(E, 'is_end_stream', within='impl<T, U> Body for EncodeBody<T, U>', header='impl<T, U: Stream> EncodeBody<T, U> {', close=True, props=['C03', 'C02'],
+         ensures=[Clause('W10_the_body_claims_its_end_exactly_once_the_trailers_went_out', 'r == self.state.is_end_stream', ['C03', 'C02'])])
     return u
